@@ -181,6 +181,20 @@ pub enum CancelPlan {
     EveryKth(usize),
 }
 
+/// A region of memory (inside the buffer zlink hands to the read seam) that a held, borrowed
+/// value points to. Checked at every transport read: intact before the read copies its data;
+/// marked `clobbered` when the read's own data (or the end-of-data sentinel behind it) lands on it.
+#[derive(Debug)]
+pub struct Watch {
+    pub pipe: usize,
+    pub ptr: usize,
+    pub len: usize,
+    pub expect: Vec<u8>,
+    pub gen: u64,
+    pub clobbered: bool,
+    pub label: usize,
+}
+
 pub struct W {
     pub tape: Tape,
     pub cfg: Cfg,
@@ -214,6 +228,9 @@ pub struct W {
     pub conn_ids: Vec<usize>,
     /// First violation detected by an in-run invariant (class, message).
     pub fail: Option<(String, String)>,
+    pub watches: Vec<Watch>,
+    /// Class reported when a watched region changes although no transport read wrote to it.
+    pub watch_class: &'static str,
     /// Human-readable description of the scenario (filled in when a sample / trace is wanted).
     pub scenario: Option<serde_json::Value>,
     pub want_sample: bool,
@@ -259,6 +276,8 @@ impl W {
             read_half_drops: Vec::new(),
             conn_ids: Vec::new(),
             fail: None,
+            watches: Vec::new(),
+            watch_class: "watch/changed-without-transport-read",
             scenario: None,
             want_sample: trace,
         }))
@@ -657,6 +676,28 @@ impl Future for ReadFut<'_> {
                 pipe.max_read_window = window;
             }
         }
+        if !w.watches.is_empty() {
+            let gen = w.pipes[p].realloc_gen;
+            let mut bad: Option<String> = None;
+            for wt in w.watches.iter().filter(|wt| wt.pipe == p && wt.gen == gen && !wt.clobbered) {
+                // SAFETY (best effort): the region lies inside the buffer whose tail we were just
+                // handed, and no growth of that buffer was observed since the watch was set.
+                let now = unsafe { std::slice::from_raw_parts(wt.ptr as *const u8, wt.len) };
+                if now != &wt.expect[..] {
+                    bad = Some(format!(
+                        "held item {} read {:?} when it was yielded and reads {:?} at the start of a later transport read, before that read wrote anything and although no earlier read touched these bytes",
+                        wt.label,
+                        String::from_utf8_lossy(&wt.expect),
+                        String::from_utf8_lossy(now)
+                    ));
+                    break;
+                }
+            }
+            if let Some(msg) = bad {
+                let class = w.watch_class;
+                w.set_fail(class, msg);
+            }
+        }
         if !w.pipes[p].readable.is_empty() {
             if w.cfg.read_pending_despite_data && w.tape.chance(1, 4) {
                 w.stat("buggify.read_pending_despite_data");
@@ -683,6 +724,13 @@ impl Future for ReadFut<'_> {
             pipe.data_reads += 1;
             if n == window {
                 pipe.realloc_gen += 1;
+            }
+            // the bytes this read wrote, plus the end-of-data sentinel the caller plants behind them
+            let (lo, hi) = (this.buf.as_ptr() as usize, this.buf.as_ptr() as usize + n + 1);
+            for wt in w.watches.iter_mut().filter(|wt| wt.pipe == p) {
+                if wt.ptr < hi && lo < wt.ptr + wt.len {
+                    wt.clobbered = true;
+                }
             }
             w.ev("read", p as u64, n as u64);
             this.done = true;
